@@ -96,6 +96,7 @@ DECOYS = ['sink(1, 2)', 'x_local = 3', 'sink(a_=1)', 'if 0: sink()', 'str(5)', '
           '_lam = lambda *r, **s: sink(*r, **s)', 'assert True', 'global G_', 'pass']
 
 PRELUDE = '''import functools, contextlib
+from sigtools import modifiers
 OTHER_A = ()
 OTHER_K = {}
 def sink(*a, **k): return None
@@ -121,6 +122,20 @@ def gen_program(case_seed, force=None):
         if not (sigs.has_kind(po, VA) or sigs.has_kind(po, VK)):
             po = po + (('kwargs', VK, None, None),)
     ova, ovk = sigs.star_name(po, VA), sigs.star_name(po, VK)
+    # the forwarding function may itself be wrapped by sigtools.modifiers (discovery then goes through the
+    # wrapper's hint and its rewritten signature); a second layer / annotate may be applied LATER, after the
+    # first layer has already been inspected
+    modifier = None
+    opk = [p[0] for p in po if p[1] == PK]
+    if route in ('global', 'attr') and opk and 'taints' not in force and rnd.random() < 0.2:
+        kind = rnd.choice(('kwoargs', 'posoargs', 'annotate-late', 'stack-late'))
+        modifier = dict(kind=kind, first='@modifiers.kwoargs(%r)' % opk[-1], late=None)
+        if kind == 'posoargs':
+            modifier['first'] = '@modifiers.posoargs(end=%r)' % opk[0]
+        elif kind == 'annotate-late':
+            modifier['late'] = 'modifiers.annotate(%s=7)(outer)' % opk[0]
+        elif kind == 'stack-late' and len(opk) >= 2:
+            modifier['late'] = 'modifiers.posoargs(end=%r)(outer)' % opk[0]
     ncalls = force.get('ncalls') or rnd.choice([1, 1, 1, 2, 2, 3])
     if route in ('param_partial', 'inner_partial', 'wraps', 'default_param'):
         ncalls = 1
@@ -195,7 +210,7 @@ def gen_program(case_seed, force=None):
     for c in calls:
         c['decoy_after'] = rnd.choice(DECOYS).format() if rnd.random() < 0.25 else None
     meta = dict(case_seed=case_seed, route=route, po=po, ova=ova, ovk=ovk, calls=calls, taints=taints,
-                decoys_head=decoys_head, decorate_outer=False, extra_tail=[])
+                decoys_head=decoys_head, decorate_outer=False, extra_tail=[], modifier=modifier)
     return render(meta), meta
 
 
@@ -240,7 +255,8 @@ def render(meta):
     body += meta.get('extra_tail', [])
     if not body:
         body = ['pass']
-    src, target_expr = assemble(route, po, calls, body, decorate=meta.get('decorate_outer', False))
+    src, target_expr = assemble(route, po, calls, body, decorate=meta.get('decorate_outer', False),
+                                modifier=meta.get('modifier'))
     return src
 
 
@@ -347,9 +363,11 @@ def wrap_context(ctx, call):
     raise KeyError(ctx)
 
 
-def assemble(route, po, calls, body, decorate=False):
+def assemble(route, po, calls, body, decorate=False, modifier=None):
     ostr = sigs.render(po)
     deco = '@passthrough\n' if decorate else ''
+    if modifier:
+        deco += modifier['first'] + '\n'
     ind = lambda lines, k=1: textwrap.indent('\n'.join(lines), '    ' * k)
     src = PRELUDE
     defs = ''.join('def callee%d(%s): return None\n' % (i, sigs.render(c['pi'])) for i, c in enumerate(calls))
@@ -366,7 +384,7 @@ def assemble(route, po, calls, body, decorate=False):
     elif route == 'attr':
         src += defs + 'class NS(object): pass\nns = NS(); ns.sub = NS(); ns.label = 1; ns.sub.label = 2\n'
         src += ''.join('ns.sub.fn%d = callee%d\n' % (i, i) for i in range(n))
-        src += 'def outer(%s):\n%s\ntarget = outer\nraw_outer = outer\n' % (ostr, ind(body))
+        src += (deco if modifier else '') + 'def outer(%s):\n%s\ntarget = outer\nraw_outer = outer\n' % (ostr, ind(body))
         src += 'callee_objs = [%s]\n' % ', '.join('callee%d' % i for i in range(n))
     elif route == 'selfmethod':
         selfo = 'self' + (', ' + ostr if ostr else '')
@@ -432,6 +450,8 @@ def own_signature(meta, g):
     """Plain signature of the def of outer itself (not following __wrapped__)."""
     from sigtools import signatures
     raw = g['raw_outer']
+    if meta.get('modifier'):
+        return signatures.signature(g['target'])
     if meta['route'] == 'wraps':
         saved = raw.__dict__.pop('__wrapped__')
         try:
@@ -621,6 +641,24 @@ def check_program(ctx, case_seed, want=('C05', 'C06', 'C07'), force=None, varian
                     except Exception:
                         pass
             w['retrieved_before'].append(label)
+    mod = meta.get('modifier')
+    if mod:
+        ctx.count('auto.modifier_wrapped_outer')
+        w['modifier'] = mod['first']
+        if mod.get('late'):
+            # the first layer is inspected, then another layer / annotate is applied on top of it
+            for retr in (sigtools.signature, inspect.signature):
+                try:
+                    retr(g['outer'])
+                except Exception:
+                    pass
+            try:
+                target = g['target'] = eval(mod['late'], g)
+            except Exception as e:
+                ctx.count('auto.late_layer_inadmissible')
+                return None
+            w['applied_after_first_inspection'] = mod['late']
+            ctx.count('auto.late_layer_applied')
     try:
         S = sigtools.signature(target)
     except Exception as e:
@@ -667,6 +705,8 @@ def check_program(ctx, case_seed, want=('C05', 'C06', 'C07'), force=None, varian
             vsrc, vmeta = variant(meta, rnd)
             try:
                 vg = load(vsrc)
+                if vmeta.get('modifier') and vmeta['modifier'].get('late'):
+                    vg['target'] = eval(vmeta['modifier']['late'], vg)
                 vS = sigtools.signature(vg['target'])
             except Exception as e:
                 ctx.violation('C06', 'AutoBoundary', 'variant-raises-%s' % type(e).__name__,
@@ -729,7 +769,7 @@ def requery_after_rebinding(ctx, meta, g, want, w, rp):
     import copy
     import sigtools
     from sigtools import signatures
-    if meta['route'] not in REBINDABLE or random.Random(meta['case_seed'] ^ 0x51ed27).random() > 0.6:
+    if meta['route'] not in REBINDABLE or meta.get('modifier') or random.Random(meta['case_seed'] ^ 0x51ed27).random() > 0.6:
         return
     c0 = meta['calls'][0]
     if c0['star'] != 'own' and c0['dstar'] != 'own':
@@ -797,6 +837,8 @@ def execute_soundness(ctx, meta, g, S, w, rp):
     target = g['target']
     res = bparams(S)
     ob = sigs.shape_key(meta['po'])
+    if meta.get('modifier'):
+        ob = tuple(bparams(own_signature(meta, g)))
     ins = [ob] + [sigs.shape_key(c['pi']) for c in meta['calls']]
     if meta['route'] == 'param_partial':
         ins[0] = (('func', PK, None, None),) + tuple(ob)
